@@ -191,10 +191,6 @@ func runHTTP1Method(c *hx.Ctx) {
 					}
 					cbr = bufio.NewReader(cli)
 				}
-				bodilessChunked := shape == "chunked0" && (method == "GET" || method == "HEAD")
-				if bodilessChunked && round > 0 {
-					continue // KNOWN_FINDINGS: never arrives (costs a timeout): once per run
-				}
 				body := c01mBody(r, shape)
 				cli.SetDeadline(time.Now().Add(5 * time.Second))
 				cli.Write(c01mWire(method, shape, body))
@@ -203,7 +199,7 @@ func runHTTP1Method(c *hx.Ctx) {
 				select {
 				case got = <-seen:
 					out = methodOf(got) + " " + hx.Hex(got.body)
-				case <-time.After(map[bool]time.Duration{false: 3 * time.Second, true: 1200 * time.Millisecond}[bodilessChunked]):
+				case <-time.After(3 * time.Second):
 				}
 				ok := false
 				if got != nil {
